@@ -58,6 +58,10 @@ RULE = ('Hypothesis-generated cases: 1-6 static-registration files forming an in
         'readers survive it); after a failed call (unreadable file, unknown name) the same call '
         '- or, for parse_config_file, a text including the root file - is optionally repeated '
         'after creating the file / with skip_unknown=True and must behave like a first parse; '
+        'after a successful call that left the config unlocked (or with clear_config in '
+        'between) optionally the places change - a copy with different content appears in a place '
+        'searched earlier than the one that won (disk or in-memory reader), or the winning copy '
+        'is deleted - and the same call is made again: the search starts afresh; '
         'with no files the files argument is [] / None / (), with no bindings the bindings '
         'argument is [] / None / ""; optionally, after a successful call that left the config '
         'unlocked, the multi-file entry point is called again with nothing to parse '
@@ -74,6 +78,8 @@ ASSUMPTIONS = [
     'this also holds when there is nothing to parse (no files, no bindings)',
     'static registration only (dynamic-registration files belong to C19)',
     'clear_config() resets bindings, not the registered search locations and readers',
+    'every parse resolves every name afresh by the documented search order: a file that appears '
+    'in an earlier place between two parses wins the second time',
     'a failed parse applies only statements of the text it was parsing (a prefix), so repeating '
     'the complete parse afterwards yields the config of the complete flattened text; files that '
     'were being parsed when the failure happened can be parsed again',
@@ -109,8 +115,11 @@ FLOORS = {
     'cand:cwd-first-sensitive': 0.05, 'levels>=2': 0.15, 'tree:imports-differ': 0.08,
     'multi:bindings-override-file': 0.03, 'multi:finalize-default': 0.05,
     'default-skip-with-unknown:config': 0.01, 'default-skip-with-unknown:file': 0.01,
-    'default-skip-with-unknown:multi': 0.01, 'missing:abs-direct': 0.003,
+    'default-skip-with-unknown:multi': 0.006, 'missing:abs-direct': 0.003,
     'nspath:namespace-dir-consulted': 0.05, 'selected:custom-reader': 0.05,
+    'reparse:earlier-copy-appeared,direct': 0.01, 'reparse:earlier-copy-appeared,included': 0.02,
+    'reparse:earlier-copy-appeared,entry-multi': 0.005,
+    'reparse:earlier-copy-appeared,after-clear_config': 0.01, 'reparse:winner-deleted': 0.008,
     'retry:ok,after-unknown': 0.02, 'retry:ok,after-missing': 0.03,
     'retry:ok,reparses-file-open-at-failure': 0.03, 'retry:ok,through-another-root': 0.005,
     'clear:after-first-location,more-follow': 0.05, 'clear:after-all-registrations': 0.2,
@@ -219,6 +228,9 @@ def strategy():
       'argstyle': st.integers(0, 2),
       'clear': st.integers(0, 7),
       'retry': st.one_of(st.none(), st.fixed_dictionaries({'mode': st.integers(0, 1)})),
+      'reparse': st.one_of(st.none(), st.fixed_dictionaries(
+          {'file': st.sampled_from([0, 0, 0, 1, 2, 3, 4, 5]), 'op': st.sampled_from([0, 0, 1]),
+           'pick': _small})),
       'after': st.one_of(st.none(), st.none(), st.fixed_dictionaries({
           'argstyle': st.integers(0, 2),
           'finalize': st.sampled_from(['default', 'default', 'false', 'true']),
@@ -255,7 +267,7 @@ def _join(prefix, name):
 class Model:
   """Everything that follows from the case (and the temp dir name) alone."""
 
-  def __init__(self, case, tmp, retry_of=None):
+  def __init__(self, case, tmp, retry_of=None, mutate=None):
     # retry_of: the kind of fault the first call ran into.  'unknown' -> the same call is repeated
     # with skip_unknown=True; 'missing' -> the unreadable file is created first.
     self.case = case
@@ -263,6 +275,8 @@ class Model:
     self.entry = case['entry']
     self.retry_of = retry_of
     self.retry_ok = retry_of is not None
+    self.mutate = mutate           # {'file': j, 'op': 0 add an earlier copy | 1 delete the winner}
+    self.mutation = None           # the concrete file-system / reader-store action, if possible
     self.skip_passed = case['skip'] == 'true' or retry_of == 'unknown'
     files = case['files']
     n = self.n = len(files)
@@ -407,6 +421,8 @@ class Model:
         self.dirs[path] = None
         if l <= nloc:
           self.dir_locs.setdefault(i, set()).add(0 if f['kind'] == 'abs' else l)
+    if self.mutate is not None:
+      self._mutate()
     if self.retry_of == 'missing':
       # the file nobody could read is created (as a plain file in the first location where the
       # name is free) before the call is repeated
@@ -421,6 +437,48 @@ class Model:
             self.disk[path] = (self._render(i, tag), tag)
             self.retry_ok = True
             break
+
+  def _mutate(self):
+    """Between two parses the places change: a copy (different content) appears in a place that
+    is searched before the one that won, or the winning copy disappears."""
+    j = self.mutate['file']
+    name = self.names[j]
+    cands = self.candidates(name)
+    if not cands:
+      return
+    l0, r0, _ = cands[0]
+    prefixes = [''] if name.startswith('/') else self.prefixes
+    if self.mutate['op'] == 1 and len(cands) >= 2 and r0 != 1:
+      path = _join(prefixes[l0], name)
+      if r0 == 0:
+        del self.disk[self._abs(path)]
+        self.mutation = ('remove', self._abs(path))
+      else:
+        del self.cust[r0 - 2][path]
+        self.mutation = ('cust-del', r0 - 2, path)
+      return
+    spots = []
+    for l in range(l0 + 1):
+      path = _join(prefixes[l], name)
+      for r in [0] + list(range(2, 2 + self.nread)):
+        if (l, r) >= (l0, r0):
+          continue
+        if r == 0 and (self._abs(path) in self.dirs or self._abs(path) in self.disk):
+          continue
+        if r >= 2 and path in self.cust[r - 2]:
+          continue
+        spots.append((l, r, path))
+    if not spots:
+      return
+    l, r, path = spots[self.mutate['pick'] % len(spots)]
+    tag = f'f{j}@appeared-later@{l}.{r}'
+    content = self._render(j, tag)
+    if r == 0:
+      self.disk[self._abs(path)] = (content, tag)
+      self.mutation = ('write', self._abs(path), content)
+    else:
+      self.cust[r - 2][path] = (content, tag, True)
+      self.mutation = ('cust-add', r - 2, path, (content, tag, True))
 
   def _abs(self, path):
     return path if path.startswith('/') else self.cwd + '/' + path
@@ -982,6 +1040,24 @@ def _check(case, tmp):
       text2 = '\n'.join(lines2) + '\n'
       retry = {'m': m2, 'trees': trees2, 'fault': fault2, 'text': text2,
                'ref': _reference_cs(text2, m2.skip_passed) if fault2 is None else None}
+  # a successful call, then the places change, then the same call again: every name is searched
+  # afresh in the order registered.  All variants of a file bind the same keys, so the second
+  # call leaves the config of ITS flattened text (with or without a clear_config in between).
+  reparse = None
+  winners = [i for i, w in m.resolved if w is not None]
+  if fault is None and case.get('reparse') is not None and winners:
+    rp = case['reparse']
+    for k in range(len(winners)):          # the first reached file, from the drawn one on, whose
+      m3 = Model(case, tmp, mutate={       # places can change that way
+          'file': winners[(rp['file'] + k) % len(winners)], 'op': rp['op'], 'pick': rp['pick']})
+      if m3.mutation is not None:
+        break
+    if m3.mutation is not None:
+      lines3, trees3, fault3, _ = m3.flatten()
+      if fault3 is None:
+        text3 = '\n'.join(lines3) + '\n'
+        reparse = {'m': m3, 'trees': trees3, 'text': text3,
+                   'ref': _reference_cs(text3, m3.skip_passed)}
 
   # ---- real side: materialise, register, call ---------------------------------------------
   _materialise(m)
@@ -1122,8 +1198,46 @@ def _check(case, tmp):
   # ---- success path -------------------------------------------------------------------------
   _check_success(case, entry, got, err, cs, ref_cs, trees, desc, flat_text, finalize_requested,
                  hook_snapshots, 0)
-  # ---- later in the same process: the multi-file entry point with nothing to parse ----------
+  # ---- the places change, then the same call again -----------------------------------------
+  if reparse is not None and (clear & 4 or not gin.config_is_locked()):
+    m3 = reparse['m']
+    action = m3.mutation
+    if action[0] == 'write':
+      os.makedirs(os.path.dirname(action[1]), exist_ok=True)
+      with open(action[1], 'w') as f:
+        f.write(action[2])
+    elif action[0] == 'remove':
+      os.remove(action[1])
+    elif action[0] == 'cust-add':
+      m.cust[action[1]][action[2]] = action[3]
+    else:
+      del m.cust[action[1]][action[2]]
+    if clear & 4:
+      gin.clear_config()
+      labels.add('clear:between-two-parses')
+    call3, pos3, kw3, fin3, _ = _make_call(m3, case, skip)
+    j = m3.mutate['file']
+    desc3 = (f'{desc}; then {action[0]} {action[1:3]!r} for {m3.names[j]!r}'
+             f'{", clear_config()" if clear & 4 else ""} and the same call again')
+    calls_before = len(hook_snapshots)
+    got3 = err3 = None
+    try:
+      got3 = call3()
+    except Exception as e:  # pylint: disable=broad-except
+      err3 = e
+    cs = gin.config_str()
+    desc = desc3
+    _check_success(case, entry, got3, err3, cs, reparse['ref'], reparse['trees'],
+                   desc3, reparse['text'], fin3, hook_snapshots, calls_before)
+    what = 'earlier-copy-appeared' if action[0] in ('write', 'cust-add') else 'winner-deleted'
+    labels.add('reparse:' + what)
+    labels.add(f'reparse:{what},' + ('direct' if j < m.nroots and entry != 'config'
+                                     else 'included'))
+    labels.add(f'reparse:{what},entry-{entry}')
+    if clear & 4:
+      labels.add(f'reparse:{what},after-clear_config')
   after = case.get('after')
+  # ---- later in the same process: the multi-file entry point with nothing to parse ----------
   if after is not None and not gin.config_is_locked():
     apos, akw, how = _multi_args(after['finalize'], after['skip'], after.get('argstyle', 0))
     labels.update('args:multi-' + h for h in how)
